@@ -132,6 +132,7 @@ type FnCtx struct {
 	fresh       int
 	notes       map[string]bool // abstractions encountered
 	kcount      map[string]int
+	callsiteHit map[int]bool
 	boxes       map[Sort]bool
 	lits        map[string]string
 	litSeq      []string
@@ -836,6 +837,14 @@ func (c *FnCtx) translate() {
 		c.block(b)
 	}
 	c.checkEnsures()
+	if c.Spec != nil && c.inl == nil {
+		for i, cs := range c.Spec.Callsites {
+			if !c.callsiteHit[i] {
+				// a ghost assertion that is attached to no call would be vacuous
+				c.E.specError(c.Name, cs.Cl, fmt.Errorf("callsite clause matches no static call of %q in this function", cs.Callee))
+			}
+		}
+	}
 }
 
 func (c *FnCtx) paramVal(name string, t types.Type) Val {
